@@ -12,6 +12,7 @@ CONSTANTS
   Bases = {1}
   Gates = {TRUE}
   Kinds = {"block"}
+  MaxSizes = {100}
   MaxBatch = 10
   Cap = 10
   FailLimit = 3
